@@ -112,22 +112,24 @@ def run(prog, rep, tier):
     explicit = [c for c in cls if c.bb not in L]
     rep.examined(R152, PP + "|flags", sample={"explicit": [(c.d.split("::")[-1], str(const_of(b, c.args[1]))) for c in explicit],
                                               "walked": [(c.d.split("::")[-1], str(const_of(b, c.args[1]))) for c in in_walk]})
-    if len(explicit) != 1 or len(in_walk) != 1:
+    if len(explicit) < 1 or len(in_walk) < 1:
         raise CheckerError("process_path: classifier call sites explicit=%d walk=%d" % (len(explicit), len(in_walk)))
-    if not (explicit[0].args[1][0] == "k" and explicit[0].args[1][2] is True):
-        rep.violation(R152, PP + "|explicit", "process_path: a file named explicitly is not classified with unparseable_are_text = true; files with a known non-log suffix would be skipped although named explicitly")
-    if not (in_walk[0].args[1][0] == "k" and in_walk[0].args[1][2] is False):
-        rep.violation(R152, PP + "|walked", "process_path: files found by walking a directory are not classified with unparseable_are_text = false")
+    for ex_ in explicit:
+        if not (ex_.args[1][0] == "k" and ex_.args[1][2] is True):
+            rep.violation(R152, PP + "|explicit", "process_path: a file named explicitly is not classified with unparseable_are_text = true; files with a known non-log suffix would be skipped although named explicitly")
+    for iw_ in in_walk:
+        if not (iw_.args[1][0] == "k" and iw_.args[1][2] is False):
+            rep.violation(R152, PP + "|walked", "process_path: files found by walking a directory are not classified with unparseable_are_text = false")
     # the explicit call must be under path.is_file()
     pif = [c for c in b.live_calls() if c.d.endswith("path::Path::is_file")]
-    if not pif or not b.dominates(pif[0].bb, explicit[0].bb):
+    if not pif or not all(b.dominates(pif[0].bb, ex_.bb) for ex_ in explicit):
         rep.violation(R152, PP + "|explicit-guard", "process_path: explicit-file classification is not guarded by Path::is_file")
     # same classifier
-    r1 = prog.reachable_fns([explicit[0].d])
-    r2 = prog.reachable_fns([in_walk[0].d])
     impl = "s4lib::readers::filepreprocessor::pathbuf_to_filetype_impl"
-    rep.examined(R152, PP + "|one-classifier", sample={"explicit_reaches_impl": impl in r1, "walked_reaches_impl": impl in r2})
-    if impl not in r1 or impl not in r2:
+    r1 = all(impl in prog.reachable_fns([ex_.d]) for ex_ in explicit)
+    r2 = all(impl in prog.reachable_fns([iw_.d]) for iw_ in in_walk)
+    rep.examined(R152, PP + "|one-classifier", sample={"explicit_reaches_impl": r1, "walked_reaches_impl": r2})
+    if not r1 or not r2:
         rep.violation(R152, PP + "|one-classifier", "process_path: explicit and walked files are not classified by the same function")
     # archive members inherit the caller's flag in both places (explicit tar and tar met in a walk)
     tars = [c for c in b.live_calls() if c.d.endswith("filepreprocessor::process_path_tar")]
@@ -224,6 +226,7 @@ def run(prog, rep, tier):
     R155 = rep.rule("R15.5", "every classification in process_path is fed the resolved (canonicalized) name")
     pb_ = prog.body("s4lib::readers::filepreprocessor::process_path")
     n155 = 0
+    cls155 = []
     for c in pb_.live_calls():
         if not (c.d.endswith("::path_to_filetype") or c.d.endswith("::pathbuf_to_filetype")):
             continue
@@ -241,8 +244,12 @@ def run(prog, rep, tier):
                     canon_ = True
                 elif nm_ in ("unwrap_or_else", "unwrap_or", "unwrap", "to_path_buf", "clone", "into", "from", "expect", "unwrap_or_default", "map", "ok", "and_then", "to_owned", "as_path"):
                     work_.extend(a for a in cc_.args if a[0] != "k")
-        rep.examined(R155, "%s|classify@%s" % (pb_.path, c.d.split("::")[-1]), sample={"call": c.d.split("::")[-1], "line": c.line, "name_is_resolved": canon_})
-        if not canon_:
+        cls155.append((c, canon_))
+    for c, canon_ in cls155:
+        # a second classification by the name as found is a fallback when it can only be reached after a classification of the resolved name
+        fallback = (not canon_) and any(cn2 and c2 is not c and pb_.dominates(c2.bb, c.bb) for c2, cn2 in cls155)
+        rep.examined(R155, "%s|classify@%s#%d" % (pb_.path, c.d.split("::")[-1], c.bb), sample={"call": c.d.split("::")[-1], "line": c.line, "name_is_resolved": canon_, "fallback_after_resolved_classification": fallback})
+        if not canon_ and not fallback:
             rep.violation(R155, "%s|classify@%s|unresolved" % (pb_.path, c.d.split("::")[-1]), "process_path (line %d): %s() is given the path as found, not the name it resolves to, while the other branch classifies the canonicalized path; "
                           "a symbolic link `current.log -> data.gz` is then read as text beneath a directory and as gzip when named on the command line" % (c.line, c.d.split("::")[-1]))
     if n155 < 2:
